@@ -14,6 +14,7 @@ subprocess.run(["git", "-C", LIB, "worktree", "remove", "--force", MUT], capture
 subprocess.run(["git", "-C", LIB, "worktree", "add", "-f", MUT, "HEAD"], capture_output=True, check=True)
 EH=f"{MUT}/async_upnp_client/event_handler.py"
 CL=f"{MUT}/async_upnp_client/client.py"
+UT=f"{MUT}/async_upnp_client/utils.py"
 def rep(path, old, new, count=1):
     s=open(path).read()
     assert s.count(old)>=1, (path, old)
@@ -80,6 +81,8 @@ MUTS={
         ):
             return HTTPStatus.BAD_REQUEST""")),
  "C10-M6-first-duplicate-wins": ("C10", lambda: rep(EH, """                changes[name] = value""", """                changes.setdefault(name, value)""")),
+ "C10-M7-negative-offset-not-fixed-up": ("C10", lambda: rep(UT, 'value[-6] in ["+", "-"]', 'value[-6] in ["+"]')),
+ "C09-M6-unguarded-granted-timeout": ("C09", lambda: rep(EH, "            except (ValueError, OverflowError):", "            except (KeyError,):", 2)),
  "C11-M1-replay-newest-only": ("C11", lambda: rep(EH, "for item in self._backlog[sid]:", "for item in self._backlog[sid][-1:]:")),
  "C11-M2-delete-before-replay": ("C11", lambda: rep(EH, """            for item in self._backlog[sid]:
                 await self.handle_notify(item[0], item[1])
